@@ -156,9 +156,9 @@ def make_string(desc):
   mat = Material(desc.get('m', 0), 'c12:' + fam)
   if fam == 'lit':
     return desc['bits'] & ((1 << n) - 1), n
-  if n <= 0:
-    return 0, max(n, 0)
-  full = (1 << n) - 1
+  if n <= 0 and fam != 'cycles':
+    return 0, 0
+  full = (1 << n) - 1 if n > 0 else 0
   if fam == 'rand':
     return mat.bits(n), n
   if fam == 'zeros':
@@ -808,7 +808,27 @@ def _asymptotic_sf():
   return _SF
 
 
+def chk_chisquare(bits, n, b, prm, cls):
+  """The chi-square plumbing itself: counts of the cyclic m-bit windows of the string."""
+  m = prm.get('m', 2)
+  counts = R.cyclic_counts(b, m)[m]
+  got = libcall(N.ChiSquareUniform, list(counts))
+  size = len(counts)
+  check_p('ChiSquareUniform', got, R.chi_square_p(counts, [1.0 / size] * size, size - 1)[0], n=n, m=m)
+  mat = Material(prm.get('w', 0), 'chisq')
+  w = [1 + mat.below(9) for _ in range(size)]
+  probs = [x / sum(w) for x in w]
+  got = libcall(N.ChiSquare, list(counts), list(probs))
+  check_p('ChiSquare', got, R.chi_square_p(counts, probs, size - 1)[0], n=n, m=m, probs=probs)
+  k = prm.get('k')
+  if k:
+    got = libcall(N.ChiSquare, list(counts), list(probs), k)
+    check_p('ChiSquare', got, R.chi_square_p(counts, probs, k)[0], n=n, m=m, k=k)
+  return True
+
+
 CHECKERS = {
+    'ChiSquare': chk_chisquare,
     'Frequency': chk_frequency,
     'BlockFrequency': chk_block_frequency,
     'BlockFrequencyImpl': chk_block_frequency_impl,
@@ -833,6 +853,8 @@ CHECKERS = {
 def run_case(desc):
   """desc = {'t': [test, ...] or test, 's': string descriptor, 'prm': {test: params}}."""
   bits, n = make_string(desc['s'])
+  if n < 1:
+    return {'nt': False, 'cls': ['empty-string(outside the domain)']}
   b = R.bitlist(bits, n)
   tests = desc['t'] if isinstance(desc['t'], list) else [desc['t']]
   cls = string_labels(desc['s']['fam'], n, bits)
@@ -882,11 +904,14 @@ def strat_basic(tier):
   @st.composite
   def s(draw):
     t = draw(st.sampled_from(['Frequency', 'BlockFrequency', 'BlockFrequency', 'BlockFrequencyImpl',
-                              'Runs', 'LongestRuns', 'LongestRuns']))
+                              'Runs', 'LongestRuns', 'LongestRuns', 'ChiSquare']))
     string = draw(s_string(n_strategy(ts, hi)))
     prm = None
     if t == 'BlockFrequencyImpl':
       prm = {'M': draw(st.one_of(st.integers(1, 40), st.integers(1, max(1, string['n']))))}
+    if t == 'ChiSquare':
+      prm = {'m': draw(st.integers(1, 5)), 'w': draw(st.integers(0, 1 << 30)),
+             'k': draw(st.one_of(st.none(), st.integers(1, 40)))}
     return case(t, string, prm)
   return s()
 
